@@ -22,6 +22,9 @@ def module(path):
         m = ir.Module(open(path).read()); _modcache[path] = m
     return m
 
+class ContractViolation(lsym.PanicReached):
+    """an admissible concrete input drives a summarised callee outside its contract's precondition"""
+
 class Layout:
     """limb layout of a backend type: cell size in bytes, bit weight of each limb"""
     def __init__(self, name, cell, weights):
@@ -219,7 +222,7 @@ def encoder_selftest(run, pr, roots, rebuild, model, timeout_s, nat=None):
             rc, gc, oc = rebuild(concrete=env)
         except lsym.PanicReached as e:
             res["ok"] = False; res["panic_witness"] = dict(vector=tag, inputs=env, panic=str(e))
-            res["why"] = "concrete execution of admissible vector %s panics: %s" % (tag, e)
+            res["why"] = "concrete execution of admissible vector %s %s: %s" % (tag, "violates a callee contract" if isinstance(e, ContractViolation) else "panics", e)
             return res
         outs_c = [x.cval() for x in oc]
         rs, gs, osym = rebuild(shadow=env)
